@@ -80,7 +80,7 @@ func ConfTag(c *sdl.Conf) string {
 		key, val = "value", "#{${"+c.Keys[0]+":"+c.Default+"}+${"+c.Keys[1]+":"+c.Default2+"}}"
 	case "typePrefixDyn":
 		return "" // no tag: the field's value names its prefix
-	case "prefixInt", "prefixStr", "prefixStruct", "prefixStructV", "prefixNest":
+	case "prefixInt", "prefixStr", "prefixStruct", "prefixStructV", "prefixNest", "prefixReq":
 		key, val = "prefix", c.Keys[0]
 	case "nested":
 		key, val = "value", "#{${sim.${other.sel}}+${"+c.Keys[0]+"}}"
@@ -369,6 +369,9 @@ func emitType(b *strings.Builder, p *sdl.Program, t *sdl.Type) {
 		}
 		if gt == "nest" {
 			gt = "simrt.CfgNest"
+		}
+		if gt == "req" {
+			gt = "simrt.CfgReq"
 		}
 		if gt == "structV" {
 			gt = "simrt.CfgABV"
